@@ -1,4 +1,5 @@
 import ShredModel.Lemmas.Batch
+import ShredModel.Lemmas.Examples
 import ShredModel.Lemmas.Expand
 import ShredModel.Lemmas.NestedTop
 /-!
@@ -106,6 +107,14 @@ theorem C07_nested_inner_order (par : Bool) (pfx : Inst) (l : List (Ev Inst)) (h
     (l1 l2 : List (Ev Inst)) (hsplit : l = l1 ++ Ev.F y :: l2) : Ev.D x ∈ l1 :=
   traces_before hl (L.nodup par pfx) x y (before_nested_inner par L.tl pfx ht hb hxy) l1 l2 hsplit
 
+end Shred
+
+namespace Shred
+/-- non-vacuity: `exLevel` is a `Level` with a batch whose body is dispatched twice; the inner
+stages `[[5]], [[6]]` order `5` before `6` in every iteration -/
+example : (exLevel.task true []).sys = [[0], [1], [1, 0, 5], [1, 0, 6], [1, 1, 5], [1, 1, 6], [2]] ∧
+    TOrdered [[[5]], [[6]]] 5 6 := by
+  refine ⟨by decide, Or.inl ⟨0, 1, [[5]], [[6]], by decide, rfl, rfl, by simp, by simp⟩⟩
 end Shred
 
 #print axioms Shred.C07_batch_reads
